@@ -73,7 +73,8 @@ Catalogue == {
   Op(<<"rename", "y,w">>, FALSE, FALSE, FALSE, FALSE), Op(<<"cut", "-o", "-f", "y,x,k">>, FALSE, FALSE, TRUE, FALSE),
   Op(<<"cut", "-x", "-f", "y">>, FALSE, FALSE, TRUE, FALSE), Op(<<"sort-within-records">>, FALSE, FALSE, TRUE, FALSE),
   Op(<<"sort-within-records", "-r">>, FALSE, FALSE, TRUE, FALSE), Plain(<<"regularize">>), Plain(<<"unsparsify">>),
-  Op(<<"label", "q">>, FALSE, FALSE, FALSE, FALSE), Op(<<"nest", "--ivar", ";", "-f", "y">>, TRUE, TRUE, FALSE, FALSE),
+  \* (no `label`: it renames by POSITION, and after `reorder -e -f k` the first field is x itself)
+  Op(<<"nest", "--ivar", ";", "-f", "y">>, TRUE, TRUE, FALSE, FALSE),
   Op(<<"template", "-f", "k,x,y,z">>, FALSE, FALSE, TRUE, FALSE), Plain(<<"sparsify", "-f", "y">>),
   Op(<<"sec2gmtdate", "y">>, FALSE, FALSE, FALSE, FALSE), Plain(<<"gap", "-n", "100">>), Plain(<<"fill-empty", "--only-if-blank", "-v", "X", "--only-if-all-blank">>)
 } \ {Plain(<<"put", "$z = format_values is_absent">>), Plain(<<"fill-empty", "--only-if-blank", "-v", "X", "--only-if-all-blank">>)}
